@@ -34,9 +34,9 @@ GEN_MODULES = [("GenTheta", ["theta/hash_table.rs", "theta/serialization.rs", "t
                  "V2_PREAMBLE_ESTIMATE", "BLOCK_WIDTH", "FLAGS_IS_READ_ONLY", "FLAGS_IS_EMPTY",
                  "FLAGS_IS_COMPACT", "FLAGS_IS_ORDERED",
                  "LIT_get_stride", "LIT_hash_and_screen", "LIT_find_in_entries", "LIT_try_insert", "LIT_rebuild", "LIT_resize",
-                 "LIT_trim", "LIT_new", "LIT_starting_sub_multiple", "LIT_preamble_longs"],
+                 "LIT_trim", "LIT_new", "LIT_starting_sub_multiple", "LIT_starting_theta_from_sampling_probability", "LIT_preamble_longs"],
                 {"theta/hash_table.rs": ["get_stride", "hash_and_screen", "find_in_entries", "try_insert", "rebuild", "resize",
-                                         "trim", "new", "starting_sub_multiple"],
+                                         "trim", "new", "starting_sub_multiple", "starting_theta_from_sampling_probability"],
                  "theta/sketch.rs": ["preamble_longs"]})]
 OPNAMES = {1: "update", 2: "insert_hash", 3: "update_preimage", 4: "trim", 5: "reset", 6: "compact", 7: "dump",
            8: "layout", 9: "layout_exact", 10: "serialize", 11: "serialize_compressed", 12: "deserialize", 13: "reserialize",
@@ -127,12 +127,12 @@ def gen_case(rng, cid, tier, lg_k=None, size_class=None):
     size_class = size_class or rng.choice(["tiny", "exact", "est", "est", "deep", "screened"])
     pbits, p = f32_widened_bits(rng.choice([1.0, 1.0, 1.0, 0.5, 0.5, 1e-3, 0.999, 0.25, 2.0 ** -20]))
     if size_class == "screened":
-        pbits, p = f32_widened_bits(rng.choice([2.0 ** -20, 2.0 ** -30, 1e-3]))
+        pbits, p = f32_widened_bits(rng.choice([2.0 ** -20, 2.0 ** -30, 1e-3, 1e-20, 1e-30, 2.0 ** -63, 2.0 ** -64]))
     seed = rng.choice([9001, 9001, 0, 1, 2**64 - 1, rng.getrandbits(64)])
     if pyref.seed_hash(seed) == 0:
         seed = 9001
     sh = pyref.seed_hash(seed)
-    theta0 = MAX_THETA if p >= 1.0 else int((2.0 ** 63) * p)
+    theta0 = MAX_THETA if p >= 1.0 else max(1, int((2.0 ** 63) * p))
     k = 1 << lg_k
     lg_max = lg_k + 1
     sim = Sim(lg_k, theta0)
@@ -290,7 +290,7 @@ def cfg_of(rng, lg_k=None, p=None):
     seed = rng.choice([9001, 9001, 0, 1, 2**64 - 1, rng.getrandbits(64)])
     if pyref.seed_hash(seed) == 0:
         seed = 9001
-    theta0 = MAX_THETA if pf >= 1.0 else int((2.0 ** 63) * pf)
+    theta0 = MAX_THETA if pf >= 1.0 else max(1, int((2.0 ** 63) * pf))
     return [lg_k, rf, pbits, seed, pyref.seed_hash(seed)], theta0
 
 
@@ -359,7 +359,7 @@ def gen_codec_case(rng, cid, tier):
         if rng.random() < 0.5:
             ops.append((4, []))
     elif kind == "screened":
-        cfg, theta0 = cfg_of(rng, p=rng.choice([2.0 ** -20, 2.0 ** -30]))
+        cfg, theta0 = cfg_of(rng, p=rng.choice([2.0 ** -20, 2.0 ** -30, 1e-20, 2.0 ** -63, 1e-38]))
         seed = cfg[3]
         ops = [(7, [])]
         for i in range(rng.randint(1, 5)):
